@@ -21,7 +21,7 @@ from ..subject import repo_path
 
 RULE = (
     "stateful (Hypothesis RuleBasedStateMachine) per plugin over one scratch output directory: rules run(model list, "
-    "PYTHONHASHSEED, path spelling: absolute from the repository / absolute from an unrelated cwd / all relative / no tools on PATH / another day, user and machine) "
+    "PYTHONHASHSEED, path spelling: absolute from the repository / absolute from an unrelated cwd / all relative / no tools on PATH / another day, user and machine / python -O) "
     "= real `python -m generator` sub-process, plant_stale (a file matching the plugin's ownership "
     "pattern, or an overwritten generated file), rerun; invariant after every run: {relative path -> sha256} of the "
     "plugin-owned files equals the reference for that (plugin, model list), computed once in a fresh directory, in "
@@ -249,7 +249,7 @@ def make_machine(plugin: str, pool: Pool, ctx: Ctx, stats: collections.Counter, 
             self.dirty = False
 
         @rule(k=st.integers(0, len(pool.keys) - 1), hs=st.one_of(st.sampled_from([0, 1, 2, 987654321]), st.integers(0, 2**32 - 1)),
-              sp=st.sampled_from(["default", "default", "cwd", "relative", "minpath", "elsewhen"]))
+              sp=st.sampled_from(["default", "default", "cwd", "relative", "minpath", "elsewhen", "optimised"]))
         def run(self, k, hs, sp):
             self.do_run(pool.keys[k], hs, sp)
 
@@ -385,6 +385,7 @@ def _work(args) -> dict:
                 mach.do_run(a, 1)
                 mach.do_run(a, 1, "minpath")
                 mach.do_run(a, 1, "elsewhen")
+                mach.do_run(a, 1, "optimised")
                 for key in ("small_a_open", a, "small_a_base", a, "small_a_doc", a):   # models that differ only inside shared declarations
                     mach.do_run(key, 2)
                 mach.do_run(b, 2)
